@@ -153,6 +153,7 @@ class Stats:
         self.functions = []  # dicts
         self.pinned = []
         self.items = []
+        self.lost_shims = []   # functions that lost a `shim?` anchor: their failed proofs are not evidence
 
     def rule(self, r, n=1):
         self.rules[r] = self.rules.get(r, 0) + n
@@ -537,7 +538,7 @@ def expand_fn(args, sections, unit_file, out, stats):
                 if e_ is None:
                     raise ExtractError(f"{src.path}: fn {name}: statement starting at anchor `{arg}` has no terminator (lost anchor)")
             ed.insert(s_ if kind == "before" else e_, "\n" + text + "\n", origin)
-        elif kind in ("replace", "replace?"):
+        elif kind in ("replace", "replace?", "shim?"):
             m = re.match(r'^(.*)\s+sha=([0-9a-f]+)$', arg, re.S)
             if not m:
                 raise ExtractError(f"{unit_file}:{uline}: replace needs sha=")
@@ -546,8 +547,15 @@ def expand_fn(args, sections, unit_file, out, stats):
                 s_, e_ = find_anchor(src, fn.start, fn.body_close, anchor, f"fn {name}")
             except ExtractError:
                 if kind == "replace?":
-                    # optional shim (R7): the expression is gone, so there is nothing to replace; the body is
-                    # verified as it stands
+                    # optional pin of an EFFECTFUL statement (e.g. `pool.join()`): if it is gone there is nothing to
+                    # replace, the body is verified as it stands, and its absence is what the contract decides
+                    continue
+                if kind == "shim?":
+                    # optional R7 shim for a std operation that has no Verus specification (e.g. `Vec<u8> == &[u8]`):
+                    # the expression is gone or spelled differently.  The body is verified as it stands; if that
+                    # works, fine - but a FAILED proof of this function is then not evidence (the unspecified
+                    # operation is probably still there in another spelling): the runner makes it undecided.
+                    stats.lost_shims.append({"fn": label, "name": name, "anchor": anchor})
                     continue
                 raise
             got = hashlib.sha256(re.sub(r"\s+", "", src.text[s_:e_]).encode()).hexdigest()[:len(sha)]
@@ -680,7 +688,7 @@ def expand_unit(unit_path, stats=None):
                     body = s2[3:]
                     kind = body.split(None, 1)[0]
                     arg = body[len(kind):].strip()
-                    if kind in ("before", "after", "afterstmt", "replace", "replace?"):
+                    if kind in ("before", "after", "afterstmt", "replace", "replace?", "shim?"):
                         m = re.match(r'^"((?:[^"\\]|\\.)*)"(.*)$', arg, re.S)
                         if not m:
                             raise ExtractError(f"{unit_file}:{i+1}: anchor must be quoted")
